@@ -277,6 +277,10 @@ func recordLib(args []string) error {
 		for i := 0; i < *runs; i++ {
 			r.scenarioClobber(i)
 		}
+	case "overlap":
+		for i := 0; i < *runs; i++ {
+			r.scenarioOverlap(i)
+		}
 	default:
 		return fmt.Errorf("unknown scenario %q", *scen)
 	}
@@ -405,7 +409,7 @@ func (r *libRec) scenarioSized(i, n int, unique bool, kind string) {
 	}
 	vals := vx.PickSorted(rng, nil, nv, func(i int) string { return fmt.Sprintf("v%07d", i*7) })
 	// a few nasty strings among the generated ones
-	cols := vx.PickSorted(rng, []string{"a", "b", "caf\xc3\xa9", "d d", "u", "zz"}, 6, nil)
+	cols := vx.PickSorted(rng, []string{"a", "b", "caf\xc3\xa9", "d d", "u", "zz", "zzz"}, 7, nil)
 	d := vx.NewDict(cols, vals)
 	r.reset(d)
 	r.hashOn = n <= 5000
@@ -423,6 +427,10 @@ func (r *libRec) scenarioSized(i, n int, unique bool, kind string) {
 	}
 	if unique {
 		gens = append(gens, colGen{col: 5, present: 1, gen: func(i int) int { return 1 + i }, card: n}) // unique per row
+	}
+	if n >= 8192 {
+		// blocks of exactly 4096 rows per value (buffer / container sized runs)
+		gens = append(gens, colGen{col: 6, present: 1, gen: func(i int) int { return 1 + i/4096 }, card: 1 + n/4096})
 	}
 	rows := genDataset(rng, n, gens, i%2)
 	wr, ok := r.newWriter(1, kind)
@@ -481,6 +489,23 @@ func (r *libRec) scenarioSized(i, n int, unique bool, kind string) {
 			return
 		}
 		r.exec(1, idx, vx.Query{E: &vx.Expr{Op: "not", E: &vx.Expr{Op: "eq", Col: 3, Val: 1}}, GB: []int{5}})
+		// a handle with preloaded data and an ample cache: a wide group-by first, then queries that re-use
+		// the same cached / preloaded bitmaps
+		r.close(1, idx)
+		idx = r.open(1, "preload", "lru", 1<<24)
+		if idx == nil {
+			return
+		}
+		sel := &vx.Expr{Op: "eq", Col: 1, Val: 2}
+		r.exec(1, idx, vx.Query{E: sel, GB: []int{5}})
+		r.exec(1, idx, vx.Query{E: sel})
+		r.exec(1, idx, vx.Query{E: sel, GB: []int{1, 3}})
+		r.exec(1, idx, vx.Query{E: taut(1), GB: []int{5}})
+		r.exec(1, idx, vx.Query{E: taut(1), GB: []int{1}})
+	}
+	if n >= 8192 {
+		r.exec(1, idx, vx.Query{E: taut(1), GB: []int{6}})
+		r.exec(1, idx, vx.Query{E: &vx.Expr{Op: "eq", Col: 6, Val: 1}})
 	}
 	r.close(1, idx)
 }
@@ -625,4 +650,56 @@ func (r *libRec) scenarioClobber(i int) {
 			r.out.Emit(map[string]any{"ev": "Close", "p": p, "fh": r.fh(p)})
 		}
 	}
+}
+
+// scenarioOverlap (C16): while writer A is in the middle of Flush (the verif hook after one of its commits),
+// writer B flushes to the same path.  The path exists by then, so B must fail and must not touch the file;
+// A's index is what ends up there.
+func (r *libRec) scenarioOverlap(i int) {
+	rng := r.rng
+	nv := []int{3, 1500, 2500}[i%3] // one, two, three transactions
+	vals := vx.PickSorted(rng, nil, nv+2, func(i int) string { return "v" + padInt(i) })
+	d := vx.NewDict([]string{"a", "who"}, vals)
+	r.reset(d)
+	r.hashOn = true
+	mk := func(who int) []vx.Row {
+		rows := make([]vx.Row, 0, nv)
+		for k := 0; k < nv; k++ {
+			rows = append(rows, vx.Row{{1, 1 + k}, {2, who}})
+		}
+		return rows
+	}
+	p := 1
+	wa, ok := r.newWriter(p, []string{"mem", "memdb"}[i%2])
+	if !ok {
+		return
+	}
+	r.addRows(p, wa, mk(1))
+	fired := 0
+	updog.VerifHook = func(site string, arg uint64) {
+		if site != "writer.commit" && site != "writer.commit.final" {
+			return
+		}
+		fired++
+		if fired != 1+i%2 && !(site == "writer.commit.final" && fired == 1) {
+			return
+		}
+		updog.VerifHook = nil
+		wb := updog.NewIndexWriter(r.path(p))
+		for _, row := range mk(2) {
+			wb.AddRow(d.RowMap(row))
+		}
+		err := wb.Flush()
+		r.out.Emit(map[string]any{"ev": "FlushOverlap", "p": p, "ok": err == nil})
+	}
+	r.flush(p, wa)
+	updog.VerifHook = nil
+	idx := r.open(p, modes[i%2], "none", 0)
+	if idx == nil {
+		return
+	}
+	taut := &vx.Expr{Op: "or", Es: []*vx.Expr{{Op: "eq", Col: 1, Val: 1}, {Op: "not", E: &vx.Expr{Op: "eq", Col: 1, Val: 1}}}}
+	r.exec(p, idx, vx.Query{E: taut, GB: []int{2}})
+	r.exec(p, idx, vx.Query{E: &vx.Expr{Op: "eq", Col: 2, Val: 2}})
+	r.close(p, idx)
 }
